@@ -179,6 +179,19 @@ def run_case(c):
                                 continue
                             if not expect_ok(res, 'list', what, d, base, t, laws, one):
                                 continue
+                            # the per-channel settings in other containers than lists (tuples, NumPy arrays): same answer
+                            if k:
+                                at2 = tuple(at) if at else None
+                                g2 = (np.array(g, dtype=float) if None not in g else tuple(g)) if g else None
+                                r2 = (np.array(r) if None not in r else tuple(r)) if r else None
+                                try:
+                                    t_alt = to_rfi(d, tuple(sp), amplification_type=at2, amplifier_gain=g2, resolution=r2)
+                                except Exception as e:
+                                    res.violation('list:containers-raises:%s' % type(e).__name__, '%s with the settings as tuples / NumPy arrays raised %s: %s' % (what, type(e).__name__, e), one)
+                                    continue
+                                if not same(t_alt, t):
+                                    res.violation('list:containers', '%s gives another result with the settings as tuples / NumPy arrays: %s' % (what, diff(fp(t_alt), fp(t))), one)
+                                    continue
                             # one channel at a time, in every order (for k <= 3), equals the batch call bitwise
                             okseq = True
                             orders = list(itertools.permutations(range(k))) if k <= 3 else [tuple(range(k)), tuple(reversed(range(k)))]
